@@ -7,7 +7,7 @@ From Coq Require Import List NArith.
 From Coq.Strings Require Import Byte.
 From GI Require Import Gen.ProxyConsts Proxy.Proxy Proxy.ProxyStrings Proxy.ProxyFacts Proxy.ProxyConc
   Proxy.ProxyTheorems Proxy.ProxyExamples Proxy.XMod Proxy.XModFacts Proxy.ProxyRefine Proxy.ProxyRefineInst.
-From GI Require Import Par.ParCache Par.ParCacheProofs.
+From GI Require Import Par.ParCache Par.ParCacheBase Par.ParCacheProofs.
 Import ListNotations.
 
 (* module.unescapeString inverts module.escapeString, and conversely *)
@@ -209,7 +209,7 @@ Theorem C20_event_level_cache_reachable : forall A d ka kz name_of Zf (ps : list
   arun A d ka kz name_of Zf sch (ainit A ps) = Some st ->
   (forall n, name_of (ka n) = n) -> (forall n, name_of (kz n) = n) ->
   (forall n v, In (n, v) (flat_map (zip_ops d) ps) -> Zf n = v) ->
-  exists sc, creachable fval_id (map (calls A d ka kz) ps) sc /\
+  exists sc, creachable fval_id deps0 (map (calls A d ka kz) ps) sc /\
              ents (acs A st) = ents sc /\ plain (acs A st) = plain sc.
 Proof. exact event_level_cache_reachable'. Qed.
 Print Assumptions C20_event_level_cache_reachable.
